@@ -2,7 +2,7 @@
    Statements about Gen.GenGP, regenerated from gaussian_process.py / gaussian_process_sum.py on every run, over an
    abstract real field (exact arithmetic); cho_solve A b = A^-1 b and tri_solve = (chol A)^-1 b are the meaning of the
    LAPACK calls; the Cholesky factor is a contract (chol K (chol K)^T = K, invertible). *)
-From mathcomp Require Import all_ssreflect all_algebra.
+From mathcomp Require Import all_ssreflect all_fingroup all_algebra.
 From LV Require Import Lib.MxAux Gen.GenGP Proofs.GP.
 Set Implicit Arguments. Unset Strict Implicit. Unset Printing Implicit Defensive.
 Import GRing.Theory Num.Theory.
@@ -86,3 +86,17 @@ Theorem C02_gpsum (F : realFieldType) (m G : nat) (w : 'I_G -> F) (mean_g var_g 
   GPSum.sum_mv_mean w mean_g = GPSum.sum_mean w mean_g /\ GPSum.sum_mv_var w var_g = GPSum.sum_var w var_g.
 Proof. exact: gpsum_laws. Qed.
 Print Assumptions C02_gpsum.
+
+(* ordering of the observations: for any permutation s of the data (rows of K, P, y; columns of K_eval) the permuted system's
+   weights are the permuted weights and the predicted mean is unchanged (via uniqueness of the saddle-point solution) *)
+Theorem C02_permutation_invariance (F : realFieldType) (n m p : nat) (K : 'M[F]_n) (P : 'M[F]_(n,p)) (y : 'cV[F]_n)
+        (K_eval : 'M[F]_(m,n)) (Peval : 'M[F]_(m,p)) (s : 'S_n) :
+  let Pm := perm_mx s in let K' := Pm *m K *m Pm^T in let P' := Pm *m P in let y' := Pm *m y in
+  let b0 := cho_solve (P^T *m cho_solve K P) (P^T *m cho_solve K y) in
+  let a0 := cho_solve K y - cho_solve K (P *m b0) in
+  let b1 := cho_solve (P'^T *m cho_solve K' P') (P'^T *m cho_solve K' y') in
+  let a1 := cho_solve K' y' - cho_solve K' (P' *m b1) in
+  K \in unitmx -> P^T *m cho_solve K P \in unitmx -> K' \in unitmx -> P'^T *m cho_solve K' P' \in unitmx ->
+  (K_eval *m Pm^T) *m a1 + Peval *m b1 = K_eval *m a0 + Peval *m b0.
+Proof. move=> Pm K' P' y' b0 a0 b1 a1 H1 H2 H3 H4. exact: (@perm_mean_invariant F n m p K P y K_eval Peval s H1 H2 H3 H4). Qed.
+Print Assumptions C02_permutation_invariance.
